@@ -213,6 +213,8 @@ def render(ap, rename=None, extra_tail=""):
             L.append(f"{i2}milestone")
         if n.get("effort") is not None:
             L.append(f"{i2}effort {fmt_dur(n['effort'])}")
+        if n.get("contiguous"):
+            L.append(f"{i2}flags contiguous")
         for (sc, key, val) in n.get("sc_attrs", []):
             L.append(f"{i2}{sc}:{key} {fmt_dur(val) if key == 'effort' else fmt_date(val)}")
         if n.get("alloc"):
